@@ -151,6 +151,11 @@ class Spec(object):
             if out[0] == "return":
                 return out[1]
             if out[0] == "unconvertible":
+                if len(spec.behave) > 1 and spec.behave[1] == "late":
+                    # passes the class translator untouched and is refused by the JSON encoder only
+                    return {(1, 2): "a dict with a tuple key"}
+                if len(spec.behave) > 1 and spec.behave[1] == "late-nested":
+                    return [0, {"k": {frozenset([1]): None}}]
                 return Unconvertible()
             if out[0] == "fault":
                 return spec.shared_fault()
